@@ -184,7 +184,7 @@ def check_property(prop, tier, seed, jobs=16):
     redo = [i for i, r in enumerate(results) if r.get("status") != "error" and _inconclusive(r)]
     if redo and not os.environ.get("PYVC_NO_RETRY"):
         with cf.ProcessPoolExecutor(max_workers=2) as ex:
-            futs = {i: ex.submit(worker, (prop, tasks[i][0], tasks[i][1], tasks[i][2], tier, findings, 5)) for i in redo}
+            futs = {i: ex.submit(worker, (prop, tasks[i][0], tasks[i][1], tasks[i][2], tier, findings, 3)) for i in redo}
             for i, f in futs.items():
                 try:
                     r2 = f.result(timeout=6000)
